@@ -458,7 +458,7 @@ func funkFilter(m *Machine, args []Value, g *Term, site ssa.Instruction) Value {
 		cnt = Add(cnt, Ite(keep[i], Const(64, 1), Const(64, 0)))
 	}
 	o := m.newObject(arr, et, "filter")
-	res := &SliceV{Alts: []SliceAlt{{TS.True, o, 0}}, Len: cnt}
+	res := &SliceV{Alts: []SliceAlt{{TS.True, o, 0, 0}}, Len: cnt}
 	return &IfaceV{Alts: []IfaceAlt{{TS.True, inT, res}}}
 }
 
